@@ -6,7 +6,7 @@ open ChythonModel.Model ChythonModel.Model.Fingerprint ChythonModel.Spec.Fingerp
 /-- number of `popleft`s caused by one queue member that may still grow `d` times -/
 def budget (m : Mol) : Nat → Path → Nat
   | 0, _ => 1
-  | d + 1, now => 1 + ((extend m now).map (budget m d)).sum
+  | d + 1, now => 1 + ((extendP m now).map (budget m d)).sum
 
 theorem budget_pos (m : Mol) (d : Nat) (now : Path) : 1 ≤ budget m d now := by
   cases d <;> simp [budget] <;> omega
@@ -48,8 +48,8 @@ theorem nbrs_length_le (m : Mol) (x : Nat) : (m.nbrs x).length ≤ maxDeg m := b
     have hm := lookup_mem _ _ _ h
     exact (le_foldl_max (m.adj.map (·.2.length)) 0).2 _ (List.mem_map.mpr ⟨(x, ms), hm, rfl⟩)
 
-theorem extend_length_le (m : Mol) (now : Path) : (extend m now).length ≤ maxDeg m := by
-  unfold extend
+theorem extend_length_le (m : Mol) (now : Path) : (extendP m now).length ≤ maxDeg m := by
+  unfold extendP
   cases now.getLast? with
   | none => simp
   | some l =>
@@ -59,9 +59,9 @@ theorem extend_length_le (m : Mol) (now : Path) : (extend m now).length ≤ maxD
 theorem budget_le (m : Mol) : ∀ (d : Nat) (now : Path), budget m d now ≤ (maxDeg m + 1) ^ d
   | 0, _ => by simp [budget]
   | d + 1, now => by
-    have h1 := sum_map_le (budget m d) ((maxDeg m + 1) ^ d) (extend m now) (fun x _ => budget_le m d x)
+    have h1 := sum_map_le (budget m d) ((maxDeg m + 1) ^ d) (extendP m now) (fun x _ => budget_le m d x)
     have h2 := extend_length_le m now
-    have h3 : (extend m now).length * (maxDeg m + 1) ^ d ≤ maxDeg m * (maxDeg m + 1) ^ d := Nat.mul_le_mul_right _ h2
+    have h3 : (extendP m now).length * (maxDeg m + 1) ^ d ≤ maxDeg m * (maxDeg m + 1) ^ d := Nat.mul_le_mul_right _ h2
     have h4 : 1 ≤ (maxDeg m + 1) ^ d := Nat.pow_pos (by omega)
     simp only [budget, Nat.pow_succ, Nat.mul_add, Nat.mul_one]
     rw [Nat.mul_comm ((maxDeg m + 1) ^ d) (maxDeg m)]
@@ -71,14 +71,14 @@ theorem budget_le (m : Mol) : ∀ (d : Nat) (now : Path), budget m d now ≤ (ma
 def depthOf (hi : Int) (now : Path) : Nat := (hi - 1 - (now.length : Int)).toNat
 
 theorem chainsLoop_ok (m : Mol) (lo hi : Int) : ∀ (fuel : Nat) (q arr : List Path),
-    (q.map fun now => budget m (depthOf hi now) now).sum < fuel → ∃ r, chainsLoop m lo hi fuel q arr = .ok r
+    (q.map fun now => budget m (depthOf hi now) now).sum < fuel → ∃ r, chainsLoopP m lo hi fuel q arr = .ok r
   | 0, _, _, h => by omega
   | f + 1, [], arr, _ => ⟨arr, rfl⟩
   | f + 1, now :: q, arr, h => by
-    rw [chainsLoop]
+    rw [chainsLoopP]
     simp only [List.map_cons, List.sum_cons] at h
     have hb := budget_pos m (depthOf hi now) now
-    cases hvar : extend m now with
+    cases hvar : extendP m now with
     | nil => exact chainsLoop_ok m lo hi f q arr (by omega)
     | cons v0 vs =>
       simp only []
@@ -101,8 +101,8 @@ theorem chainsLoop_ok (m : Mol) (lo hi : Int) : ∀ (fuel : Nat) (q arr : List P
         omega
       · omega
 
-theorem chains_ok (m : Mol) (lo hi : Int) : ∃ r, chains m lo hi = .ok r := by
-  have key : ∀ arr, ∃ r, chainsLoop m lo hi (chainsFuel m hi) (m.ids.map fun x => [x]) arr = .ok r := by
+theorem chainsP_ok (m : Mol) (lo hi : Int) : ∃ r, chainsP m lo hi = .ok r := by
+  have key : ∀ arr, ∃ r, chainsLoopP m lo hi (chainsFuel m hi) (m.ids.map fun x => [x]) arr = .ok r := by
     intro arr
     apply chainsLoop_ok
     have h1 := sum_map_le (fun now => budget m (depthOf hi now) now) ((maxDeg m + 1) ^ hi.toNat)
@@ -115,7 +115,7 @@ theorem chains_ok (m : Mol) (lo hi : Int) : ∃ r, chains m lo hi = .ok r := by
     unfold chainsFuel
     simp only [Mol.ids]
     omega
-  unfold chains
+  unfold chainsP
   split
   · split
     · exact ⟨_, rfl⟩
